@@ -116,6 +116,42 @@ func isTimerChan(v ssa.Value) bool {
 	return false
 }
 
+// drainAfterStop: the receive is control dependent on the result of (*time.Timer).Stop of the same timer.
+func drainAfterStop(rcv *ssa.UnOp) bool {
+	_, base := loadedField(rcv.X)
+	if base == nil {
+		return false
+	}
+	b := rcv.Block()
+	fn := b.Parent()
+	for _, d := range fn.Blocks {
+		if d == b || !d.Dominates(b) || len(d.Instrs) == 0 {
+			continue
+		}
+		iff, ok := d.Instrs[len(d.Instrs)-1].(*ssa.If)
+		if !ok {
+			continue
+		}
+		onStop := derives(iff.Cond, func(v ssa.Value) bool {
+			call, ok := v.(*ssa.Call)
+			if !ok {
+				return false
+			}
+			g := calleeFn(call.Common())
+			return g != nil && g.String() == "(*time.Timer).Stop" && len(call.Call.Args) == 1 && accessPathOr(call.Call.Args[0]) == accessPathOr(base)
+		})
+		if !onStop {
+			continue
+		}
+		for _, s := range d.Succs {
+			if len(s.Preds) == 1 && (s == b || s.Dominates(b)) {
+				return true
+			}
+		}
+	}
+	return false
+}
+
 func chanDescr(v ssa.Value) string {
 	if f, _ := chanFieldOf(v); f != nil {
 		return f.Name()
@@ -292,7 +328,12 @@ func (e *chanEngine) classify(fn *ssa.Function, joinLatches map[*types.Var]bool)
 				return
 			}
 			op := blockingOp{In: in, Fn: fn, What: "recv " + chanDescr(x.X)}
-			if isTimerChan(x.X) {
+			if isTimerChan(x.X) && drainAfterStop(x) {
+				// "if !t.Stop() { <-t.C }": bounded only if the timer's value has not been received yet - after a
+				// receive from t.C (the timer fired and its case was taken) Stop returns false and nothing is left
+				op.Class = bcUnguarded
+				op.Why = "a timer channel is drained after Stop() returned false: when the value was already received (the timer's case was taken) nothing will ever arrive and the receive blocks for ever"
+			} else if isTimerChan(x.X) {
 				op.Class = bcBounded
 			} else if f, _ := chanFieldOf(x.X); f != nil && joinLatches[f] {
 				op.Class = bcJoin
